@@ -206,7 +206,12 @@ func compareView(sys *tarfs.FS, t *otree, rnd func(int) int) []failure {
 			data, _ := t.content(w.node)
 			b, err := readAll(sys, w.path)
 			if err != nil {
-				add(readKind(t, w.node, err, "read"), "reading %q: %v", w.path, err)
+				kind := readKind(t, w.node, err, "read")
+				if kind == "read" && t.flags.hlAlias && t.chainThroughAlias(w.node) && errors.Is(err, fs.ErrNotExist) {
+					// The chain of this hard link goes through a link the view removed.
+					kind = "hardlink-missing"
+				}
+				add(kind, "reading %q: %v", w.path, err)
 			} else if !bytes.Equal(b, data) {
 				add("read", "%q reads %d bytes (fnv %d), the last occurrence has %d bytes (fnv %d)", w.path, len(b), fnv(b), len(data), fnv(data))
 			}
@@ -454,6 +459,7 @@ func compareSub(sys *tarfs.FS, t *otree, dir oentry) []failure {
 	if err != nil {
 		return []failure{{"sub", fmt.Sprintf("Sub(%q): %v", dir.path, err)}}
 	}
+	lk, _ := sys.TablesForVerif()
 	var want []oentry
 	t.listing(dir.node, "", &want)
 	exp := []string{".:d"}
@@ -543,7 +549,14 @@ func compareSub(sys *tarfs.FS, t *otree, dir oentry) []failure {
 						continue
 					}
 					if _, err := sub.Open(b.path); err == nil && !inSub[b.path] {
-						fails = append(fails, failure{"sub", fmt.Sprintf("Sub(%q) opens %q, which is %q outside the subtree", dir.path, b.path, sn+strings.TrimPrefix(b.path, rest))})
+						kind := "sub"
+						full := dir.path + "/" + b.path
+						if _, isKey := lk[full]; isKey && t.flags.throughLink && utf8.ValidString(full) && t.realNode(strings.Split(full, "/")) == nil {
+							// The name is a key only because a member placed through a
+							// link was registered under its literal name.
+							kind = "alias-literal"
+						}
+						fails = append(fails, failure{kind, fmt.Sprintf("Sub(%q) opens %q, which is %q outside the subtree", dir.path, b.path, sn+strings.TrimPrefix(b.path, rest))})
 					}
 				}
 			}
